@@ -180,6 +180,9 @@ def rule_random_defaults(eng, rep, rule="C19-1b.random-options-are-off-by-defaul
 
 BAD_IMPORTS = {"random", "time", "uuid", "secrets", "datetime"}
 BAD_CALLS = {"id", "hash", "input"}
+# library routines that start from a random vector of their own unless one is passed (ARPACK / LOBPCG / randomised SVD): (dotted name, keyword that makes them deterministic)
+RANDOM_START_LIB = {"scipy.sparse.linalg.eigsh": "v0", "scipy.sparse.linalg.eigs": "v0", "scipy.sparse.linalg.svds": "v0", "scipy.sparse.linalg.lobpcg": None,
+                    "scipy.linalg.interpolative.svd": None, "scipy.sparse.linalg.lsmr": None if False else "x0"}
 
 
 def rule_no_hidden_state(eng, rep, rule="C19-2.no-other-nondeterminism-or-hidden-state"):
@@ -203,6 +206,12 @@ def rule_no_hidden_state(eng, rep, rule="C19-2.no-other-nondeterminism-or-hidden
                     rep.bad(rule, site, "%s|calls|%s" % (fid, ci.libname), "`%s(...)` depends on the process state" % ci.libname)
                 if ci and ci.kind == "LIB" and ci.libname.split(".")[0] in ("os",) and "urandom" in ci.libname:
                     rep.bad(rule, site, "%s|calls|os.urandom" % fid, "os.urandom")
+                if ci and ci.kind == "LIB" and ci.libname in RANDOM_START_LIB and ci.libname.split(".")[-1] not in ("lsmr",):
+                    kw = RANDOM_START_LIB[ci.libname]
+                    if kw is None or not any(k.arg == kw for k in node.keywords):
+                        rep.bad(rule, site, "%s|calls|%s" % (fid, ci.libname),
+                                "`%s(...)` starts from a random vector of its own (not drawn from numpy's global generator, not controlled by any documented option): the last bits of its result, "
+                                "and with them the evaluation points, differ between identical calls%s" % (ci.libname, "" if kw is None else " -- unless `%s=` is passed" % kw))
             elif isinstance(node, (ast.For, ast.comprehension)):
                 it = node.iter
                 if isinstance(it, (ast.Set, ast.SetComp)) or (isinstance(it, ast.Call) and isinstance(it.func, ast.Name) and it.func.id in ("set", "frozenset")):
